@@ -25,7 +25,7 @@ type c06Case struct {
 
 const c06Back = "ACGTACGTACGT" // identical backbone in every sequence: keeps tn93 frequencies non-zero
 
-var c06Menu = []string{"AAAA", "AAAC", "AAAG", "AAAN", "NNNN", "AACA", "CCCC", "AAAR", "NAAC"}
+var c06Menu = []string{"AAAA", "AAAC", "AAAG", "AAAN", "NNNN", "AACA", "CCCC", "AAAR", "NAAC", "AAAY"} // AAAY: differs from AAAA only at an ambiguity code (a listed SNP at tn93 distance 0)
 var c06Queries = []string{"AAAA", "AACA"}
 
 func wrapSeq(s string, w int) string {
@@ -384,6 +384,17 @@ func init() {
 					res.Validated++
 					if ob.String() != oc.String() {
 						res.Violate("closest:binary-differs", fmt.Sprintf("real binary and instrumented build disagree: %s vs %s", ob.String(), oc.String()), c)
+					}
+					// --measure is documented and parsed case-insensitively
+					if idx%4 == 0 {
+						up := call
+						up.Measure = map[string]string{"raw": "Raw", "snp": "SNP", "tn93": "TN93"}[m]
+						ou, _ := up.CLI(nil, c.Threads)
+						res.Evals++
+						res.Validated++
+						if ou.String() != ob.String() {
+							res.Violate("closest:measure-spelling", fmt.Sprintf("--measure %s gives %s; --measure %s gives %s", up.Measure, ou.String(), m, ob.String()), c)
+						}
 					}
 				})
 			}
